@@ -142,7 +142,7 @@ def setup(tier, seed):
     jobs = _jobs(tier)
     return {
         'jobs': jobs,
-        'budget_s': 900 if tier == 'quick' else 3300,
+        'budget_s': 780 if tier == 'quick' else 3300,
         'explanation': 'formula lemmas: the real Position.liquidation_price/bankruptcy_price with a symbolic entry price for every integer leverage '
                        '2..125, both sides (z3: strictly between entry and bankruptcy price). Sessions: the real simulator on symbolic candles after a '
                        'market entry, isolated/cross/spot; a wrapper around _check_for_liquidations records the state before/after; per minute z3 '
